@@ -95,6 +95,7 @@ var corpus = []variant{
 	{"C16-regular-file-falls-back", "C16", "C16.rebuild-error-not-destructive", []edit{{"pkg/fs/filesystem.go", "func (f *STFS) Initialize(", "			if inUse {\n				return \"\", err\n			}\n\n", "			_ = inUse\n\n"}}},
 	{"C13-depth-by-replace", "C13", "C13.no-sql-replace-by-parameter", []edit{{"pkg/persisters/metadata.go", "", "    length(substr(%v, length(?) + 1)) - length(replace(substr(%v, length(?) + 1), '/', '')) as depth", "    length(replace(%v, ?, '')) - length(replace(replace(%v, ?, ''), '/', '')) as depth"}}},
 	{"C12-root-rename-by-spelling", "C12", "C12.root-rename-refused", []edit{{"pkg/fs/filesystem.go", "func (f *STFS) Rename(", " || pathext.IsRoot(oldname, false) {", " {"}}},
+	{"C02-rename-onto-itself", "C02", "C02.rename-onto-itself-kept", []edit{{"pkg/fs/filesystem.go", "func (f *STFS) Rename(", "		if target.Name == source.Name && target.Linkname == source.Linkname {\n			return nil\n		}\n\n", ""}}},
 	{"C12-like-filter-removed", "C12", "C12.like-safety", []edit{{"pkg/persisters/metadata.go", "func (p *MetadataPersister) GetHeaderChildren(", "		if !strings.HasPrefix(hdr.Name, childPrefix) {\n			continue\n		}\n\n", ""}}},
 	{"C12-ancestry-guard-removed", "C12", "C12.ancestry-guard", []edit{{"pkg/fs/filesystem.go", "", "	if strings.HasPrefix(\n\t\tstrings.TrimPrefix(newname, string(filepath.Separator)),\n\t\tstrings.TrimPrefix(strings.TrimSuffix(oldname, string(filepath.Separator)), string(filepath.Separator))+string(filepath.Separator),\n\t) {\n\t\treturn os.ErrInvalid\n\t}\n", "	_ = strings.TrimSuffix\n"}}},
 	{"C12-ancestry-guard-textual", "C12", "C12.ancestry-guard", []edit{{"pkg/fs/filesystem.go", "", "		strings.TrimPrefix(newname, string(filepath.Separator)),\n\t\tstrings.TrimPrefix(strings.TrimSuffix(oldname, string(filepath.Separator)), string(filepath.Separator))+string(filepath.Separator),\n", "		newname,\n\t\tstrings.TrimSuffix(oldname, string(filepath.Separator))+string(filepath.Separator),\n"}}},
